@@ -746,6 +746,19 @@ def observe_tags(M, c, st, o, full=True):
             if not _raises(r, FIXMessageError):
                 o.add("group_errors", "get_group_by_index", "group_below_range", sk, canon, r,
                       "a FIXMessageError (TagNotFoundError)", f"c.get_group_by_index({ts}, {-(n + 1)})")
+        if tk == "group" and n:
+            # negative indexes within range: the accessor addresses the same ordered list get_group_list returns, so
+            # index i in [-n, -1] yields item n+i; the only other coherent behaviour is to refuse EVERY negative
+            # index with the documented error. Serving some and reporting others "out of range" is a violation.
+            neg = [(i, call(c.get_group_by_index, tag, i)) for i in range(-n, 0)]
+            o.n += n
+            if not all(_raises(r, FIXMessageError) for _i, r in neg):
+                for i, r in neg:
+                    if not (r[0] and snap_item(r[1]) == v[n + i]):
+                        edge = "first_from_end" if i == -n else ("last" if i == -1 else "inner")
+                        o.add("group_order", "get_group_by_index", "group_negative_in_range_" + edge, sk, canon, r,
+                              repr(v[n + i]) + " (item len+index; other negative indexes of this group are served)",
+                              f"c.get_group_by_index({ts}, {i})")
         # ---- get_group_by_tag --------------------------------------------------
         if tk != "group":
             combos = [(gtags[0], gvals[0])]
@@ -792,6 +805,32 @@ def observe_tags(M, c, st, o, full=True):
             if not good:
                 o.add("readback" if tk == "plain" else "ordered_map", "query", tkl, sk, canon, r,
                       repr({canon: v}), f"c.query({ts})")
+        else:
+            # a group tag reached through the plain-value lookup: the documented FIXMessageError (as get does) or
+            # "no value" - never a non-string object handed out as the value read back
+            r = call(c.query, tag)
+            o.n += 1
+            if not (_raises(r, FIXMessageError, TagNotFoundError) or query_ok(r, st, [canon])):
+                o.add("group_errors", "query", tkl, sk, canon, r, "FIXMessageError (or None for the group tag)",
+                      f"c.query({ts})")
+
+
+def query_ok(r, st, canons):
+    """query answered for a container holding groups: a dict over exactly the asked tags (asked order), plain tags
+    with their string value, group and missing tags None."""
+    if not (r[0] and isinstance(r[1], dict)):
+        return False
+    try:
+        norm = [(str(k), x) for k, x in r[1].items()]
+    except Exception:
+        return False
+    d = dict(st)
+    want = []
+    for cn in canons:
+        if cn not in [k for k, _x in want]:
+            want.append((cn, d[cn] if isinstance(d.get(cn), str) else None))
+    return len(norm) == len(want) and all(
+        k == wk and (x is None if wv is None else (type(x) is str and x == wv)) for (k, x), (wk, wv) in zip(norm, want))
 
 
 def typed(v, alt):
@@ -937,6 +976,24 @@ def observe_whole(M, cls, path, c, st, o, full=True, fresh=True):
             good = dict(norm) == dict(st) and len(norm) == len(st) and all(type(x) is str for _k, x in norm)
         if not good:
             o.add("readback", "query_all", "whole", "int", None, r, repr(dict(st)), "c.query()")
+    else:
+        # container holding a group: query() / query(every tag, one missing tag) either refuse with the documented
+        # FIXMessageError (a group met by the plain lookup) or answer strings for plain tags and None for the rest
+        if not (_raises(r, FIXMessageError, TagNotFoundError) or query_ok(r, st, [k for k, _v in st])):
+            o.add("group_errors", "query_all", "whole_with_group", "int", None, r,
+                  "FIXMessageError, or str values for plain tags and None for group tags", "c.query()")
+        absent = [cn for cn in M.CANON if cn not in {k for k, _v in st}][:1]
+        for order, asked in (("plain_first", sorted((k for k, _v in st), key=lambda k: not isinstance(dict(st)[k], str))),
+                             ("group_first", sorted((k for k, _v in st), key=lambda k: isinstance(dict(st)[k], str)))):
+            asked = asked + absent
+            if order == "group_first" and (not full or all(not isinstance(x, str) for _k, x in st)):
+                continue
+            r = call(c.query, *[spell(k, j) for j, k in enumerate(asked)])
+            o.n += 1
+            if not (_raises(r, FIXMessageError, TagNotFoundError) or query_ok(r, st, asked)):
+                o.add("group_errors", "query_tags", "with_group_" + order, "int", None, r,
+                      "FIXMessageError, or str values for plain tags and None for group / missing tags",
+                      f"c.query({', '.join(repr(spell(k, j)) for j, k in enumerate(asked))})")
     # ---- pickle ------------------------------------------------------------------
     r = call(lambda x: pickle.loads(pickle.dumps(x)), c)
     o.n += 1
@@ -1530,7 +1587,7 @@ def run(ctx):
         "default,-1,0,1,-2,-3 with dict and FIXContainer items / set_group; every tag spelling incl. refused ones, every "
         "value type) on the real FIXMessage (depth D) and FIXContainer (depth 3); states deduplicated by the "
         "reference model state; in EVERY distinct state all observers (get, [], get default, in, is_group, "
-        "get_group_list, get_group_by_index, get_group_by_tag, query, items, pickle, == with derived containers and "
+        "get_group_list, get_group_by_index at every index in [-len-1, len], get_group_by_tag, query of one tag / all tags / every tag plus a missing one (plain-first and group-first), items, pickle, == with derived containers and "
         "dicts with/without framing tags) are applied under every spelling; every mutator variant is executed on a "
         "fresh real object and the real state is read back and compared; plus the full equality matrix over all "
         "states of depth <= 2; plus the purity pass: on one object all observers, then a mutator (also on a pickled "
@@ -1560,9 +1617,11 @@ def run(ctx):
         "the argument is not part of the property); items are modified only through the group accessors",
         "histories continue only after the str values \"a\" and \"\": an int/float/enum value or the string with "
         "separators \"a|55=a\" is the last operation of its history",
-        "deleting a missing tag, explicit negative/oversized indexes, query() on a container holding groups, "
-        "order-only differences in equality and which of several matching items get_group_by_tag returns are "
-        "unconstrained",
+        "deleting a missing tag, order-only differences in equality and which of several matching items "
+        "get_group_by_tag returns are unconstrained; query() / query(tags) on a container holding groups may refuse "
+        "with FIXMessageError or answer str for plain and None for group / missing tags (never another object); "
+        "get_group_by_index with a negative in-range index returns item len+index unless EVERY negative index of "
+        "that group is refused",
     ]
 
 
